@@ -42,6 +42,13 @@ class Link(Edge):
         # each static library before everything it depends on.
         all_libs = self.user_libs + forward_opts.libs
         self.libs = uniques(all_libs[::-1])[::-1]
+        # A library that is linked as a whole archive brings in every member
+        # already; naming it again as a plain library would define its symbols
+        # twice (if the plain one is reached first).
+        whole = [i.library for i in self.libs if isinstance(i, WholeArchive)]
+        if whole:
+            self.libs = [i for i in self.libs
+                         if isinstance(i, WholeArchive) or i not in whole]
 
         self.user_packages = packages
         self.packages = self.user_packages + forward_opts.packages
